@@ -18,12 +18,14 @@ Definition nunits (inp : input) := length (in_units inp).
 
 (* input well-formedness: every input stop belongs to exactly one unit; the
    members of the duration groups are input stops (never a vehicle's first or
-   last stop) *)
+   last stop); every vehicle's stop duration multiplier is a non-negative
+   fraction with a positive denominator *)
 Definition wf_input (inp : input) : Prop :=
   NoDup (concat (map iu_stops (in_units inp))) /\
   (forall x, In x (concat (map iu_stops (in_units inp))) <-> (x < nstops inp)%nat) /\
   (forall u, In u (in_units inp) -> iu_stops u <> []) /\
-  Forall (fun g => Forall (fun x => (x < nstops inp)%nat) (fst g)) (in_dgroups inp).
+  Forall (fun g => Forall (fun x => (x < nstops inp)%nat) (fst g)) (in_dgroups inp) /\
+  Forall (fun ve => (0 < iv_mult_den ve)%Z /\ (0 <= iv_mult_num ve)%Z) (in_vehicles inp).
 
 Definition route_shape (inp : input) (v : nat) (stops : list nat) : Prop :=
   exists mid, stops = first_stop inp v :: mid ++ [last_stop inp v] /\
@@ -115,7 +117,7 @@ Lemma c_stop_next_cell (inp : input) (v : nat) (p : cell) (s : nat) :
   c_stop (next_cell inp v p s) = s.
 Proof.
   unfold next_cell.
-  destruct (temporal_values inp (c_end p) (c_stop p) s) as [[[tr ar] st] en].
+  destruct (temporal_values inp v (c_end p) (c_stop p) s) as [[[tr ar] st] en].
   reflexivity.
 Qed.
 
@@ -380,7 +382,7 @@ Qed.
 Lemma dgroup_of_not_input (inp : input) (x : nat) :
   wf_input inp -> nstops inp <= x -> dgroup_of inp x = None.
 Proof.
-  intros (_ & _ & _ & Hg) Hx. unfold dgroup_of. exact (dgroup_find_not_input _ x _ Hg Hx 0).
+  intros (_ & _ & _ & Hg & _) Hx. unfold dgroup_of. exact (dgroup_find_not_input _ x _ Hg Hx 0).
 Qed.
 
 Lemma stop_duration_at_not_input (inp : input) (p x : nat) :
@@ -390,6 +392,70 @@ Proof.
   rewrite (dgroup_of_not_input inp x Hwf Hx).
   replace (is_input_stop inp x) with false by (symmetry; apply Nat.ltb_ge; exact Hx).
   destruct (o_dis_durations (in_opts inp)), (o_dis_dgroups (in_opts inp)); reflexivity.
+Qed.
+
+(* the multiplier of a vehicle (of any index: the default vehicle has 1/1) *)
+Lemma wf_mult (inp : input) (v : nat) :
+  wf_input inp ->
+  (0 < iv_mult_den (get_vehicle inp v))%Z /\ (0 <= iv_mult_num (get_vehicle inp v))%Z.
+Proof.
+  intros (_ & _ & _ & _ & Hm). unfold get_vehicle.
+  destruct (Nat.lt_ge_cases v (length (in_vehicles inp))) as [Hv|Hv].
+  - rewrite Forall_forall in Hm. apply Hm. apply nth_In. exact Hv.
+  - rewrite nth_overflow by exact Hv. cbn. lia.
+Qed.
+
+Lemma scale_duration_0 (inp : input) (v : nat) : scale_duration inp v 0%Z = 0%Z.
+Proof.
+  unfold scale_duration. destruct (o_dis_multipliers (in_opts inp)); [reflexivity|].
+  cbv zeta. destruct (iv_mult_den (get_vehicle inp v) <=? 0)%Z; reflexivity.
+Qed.
+
+(* scaled values of non-negative durations are non-negative *)
+Lemma scale_duration_nonneg (inp : input) (v : nat) (d : Z) :
+  wf_input inp -> (0 <= d)%Z -> (0 <= scale_duration inp v d)%Z.
+Proof.
+  intros Hwf Hd. destruct (wf_mult inp v Hwf) as (H1 & H2).
+  unfold scale_duration. destruct (o_dis_multipliers (in_opts inp)); [exact Hd|].
+  cbv zeta. destruct (iv_mult_den (get_vehicle inp v) <=? 0)%Z; [exact Hd|].
+  apply Z.div_pos; [apply Z.mul_nonneg_nonneg; assumption|exact H1].
+Qed.
+
+Lemma stop_duration_on_not_input (inp : input) (v p x : nat) :
+  wf_input inp -> nstops inp <= x -> stop_duration_on inp v p x = 0%Z.
+Proof.
+  intros Hwf Hx. pose proof (stop_duration_at_not_input inp p x Hwf Hx) as H.
+  unfold stop_duration_at in H. unfold stop_duration_on.
+  assert (E1 : stop_duration inp x = 0%Z).
+  { unfold stop_duration.
+    replace (is_input_stop inp x) with false by (symmetry; apply Nat.ltb_ge; exact Hx).
+    destruct (o_dis_durations (in_opts inp)); reflexivity. }
+  rewrite E1 in *. rewrite Z.add_0_l in H. rewrite H, scale_duration_0. reflexivity.
+Qed.
+
+(* decidable form of the multiplier conjunct of wf_input (for concrete inputs) *)
+Definition mult_ok_b (inp : input) : bool :=
+  forallb (fun ve => (0 <? iv_mult_den ve)%Z && (0 <=? iv_mult_num ve)%Z) (in_vehicles inp).
+Lemma mult_ok_b_ok (inp : input) :
+  mult_ok_b inp = true ->
+  Forall (fun ve => (0 < iv_mult_den ve)%Z /\ (0 <= iv_mult_num ve)%Z) (in_vehicles inp).
+Proof.
+  unfold mult_ok_b. intros H. rewrite forallb_forall in H. apply Forall_forall. intros ve Hve.
+  specialize (H ve Hve). apply andb_true_iff in H. destruct H as (H1 & H2).
+  apply Z.ltb_lt in H1. apply Z.leb_le in H2. split; assumption.
+Qed.
+Ltac mult_wf := apply mult_ok_b_ok; vm_compute; reflexivity.
+
+(* multiplier 1 (or multipliers disabled): the unscaled time *)
+Lemma stop_duration_on_unit (inp : input) (v p x : nat) :
+  o_dis_multipliers (in_opts inp) = true \/
+  (iv_mult_num (get_vehicle inp v) = 1%Z /\ iv_mult_den (get_vehicle inp v) = 1%Z) ->
+  stop_duration_on inp v p x = stop_duration_at inp p x.
+Proof.
+  intros H. unfold stop_duration_on, stop_duration_at, scale_duration.
+  destruct H as [H|(H1 & H2)]; [rewrite H; reflexivity|].
+  destruct (o_dis_multipliers (in_opts inp)); [reflexivity|]. cbv zeta. rewrite H1, H2.
+  cbn [Z.leb Z.compare]. rewrite !Z.mul_1_r, !Z.div_1_r. reflexivity.
 Qed.
 
 (* ================================================================== *)
@@ -1286,7 +1352,7 @@ Qed.
 (* ================================================================== *)
 
 Definition ex_opts : options :=
-  mkOptions false false false false false false false false false false false 0%Z 1%Z 0%Z 1%Z false 0%Z 0%Z 0%Z 0%Z.
+  mkOptions false false false false false false false false false false false 0%Z 1%Z 0%Z 1%Z false 0%Z 0%Z 0%Z 0%Z false.
 Definition ex_mat : list (list Z) :=
   [[0;60;60;60];[60;0;60;60];[60;60;0;60];[60;60;60;0]]%Z.
 (* 2 stops (each picks up 1, stop 0 has a time window), 1 vehicle of capacity 1,
@@ -1294,7 +1360,7 @@ Definition ex_mat : list (list Z) :=
 Definition ex_inp : input :=
   mkInput [] [mkIStop [(-1)%Z] 10%Z [(0%Z, 3600%Z)] None 100%Z [] None 0%Z 0%Z;
            mkIStop [(-1)%Z] 10%Z [] None 100%Z [] None 0%Z 0%Z]
-          [mkIVehicle (Some [1%Z]) [0%Z] 0%Z None None None None None [] 0%Z true true 0%Z 0%Z]
+          [mkIVehicle (Some [1%Z]) [0%Z] 0%Z None None None None None [] 0%Z true true 0%Z 0%Z 1%Z 1%Z]
           [mkIUnit [0] []; mkIUnit [1] []]
           ex_mat ex_mat 1 ex_opts [].
 Definition ex_dummy : state := mkState [] [] [] [] [] 0%Z.
@@ -1306,7 +1372,7 @@ Definition ex_s1 : state := Eval vm_compute in fst (exec_move ex_inp ex_s0 ex_mv
 
 Example ex_wf : wf_input ex_inp.
 Proof.
-  split; [|split; [|split; [|exact (Forall_nil _)]]].
+  split; [|split; [|split; [|split; [exact (Forall_nil _)|mult_wf]]]].
   - vm_compute. constructor; [simpl; lia|]. constructor; [simpl; tauto|constructor].
   - intros x. vm_compute. lia.
   - intros u Hu. vm_compute in Hu. destruct Hu as [<-|[<-|[]]]; discriminate.
@@ -1373,7 +1439,7 @@ Definition cx_s' : state := Eval vm_compute in fst (unplan_unit cx_inp cx_s 0).
 
 Lemma cx_wf : wf_input cx_inp.
 Proof.
-  split; [|split; [|split; [|exact (Forall_nil _)]]].
+  split; [|split; [|split; [|split; [exact (Forall_nil _)|mult_wf]]]].
   - vm_compute. constructor; [simpl; lia|]. constructor; [simpl; tauto|constructor].
   - intros x. vm_compute. lia.
   - intros u Hu. vm_compute in Hu. destruct Hu as [<-|[]]; discriminate.
